@@ -138,7 +138,22 @@ def template_callees(chk):
         m = re.search(r'(?:=)?\s*([A-Za-z_][A-Za-z_0-9]*)\(', tp[0].text())
         chk.require(m is not None, 'template of %s is not a call: %r' % (row['name'], tp[0].text()))
         out[row['name']] = m.group(1)
-    return out
+    # the name in the template may be a macro of the analysed configuration (an alias of another function there): resolve every name
+    # to the function it denotes under the big-endian flags
+    h = templates.Harness(base_flags=['-DWASM_ENDIAN=WASM_BIG_ENDIAN', '-DWASM_THREADS_PTHREADS'])
+    names = sorted(set(out.values()))
+    for k, nm in enumerate(names):
+        h.add('R_%d' % k, '(void)&%s;\n' % nm)
+    try:
+        rtu = h.parse('c19-resolve')
+    except Exception as e:
+        raise AnalysisBroken('cannot resolve runtime function names under the big-endian configuration: %s' % e)
+    resolved = {}
+    for k, nm in enumerate(names):
+        refs = [x['referencedDecl'].get('name') for x in walk(astdb.fn_body(rtu.fn('R_%d' % k))) if x.get('kind') == 'DeclRefExpr' and
+                x.get('referencedDecl', {}).get('kind') == 'FunctionDecl']
+        resolved[nm] = refs[0] if refs else nm
+    return {row: resolved.get(nm, nm) for row, nm in out.items()}
 
 
 def check_function(chk, htu, row, cfg, callees):
@@ -390,8 +405,21 @@ def check_futex(chk):
     # the cell is loaded by the runtime's atomic loads
     f = tu.fn('wasmMemoryAtomicWait')
     chk.fn('wasmMemoryAtomicWait')
-    loads = sorted({astdb.callee_name(c) for c in walk(astdb.fn_body(f)) if c.get('kind') == 'CallExpr' and
-                    re.fullmatch(r'i(32|64)_(atomic_)?load', astdb.callee_name(c) or '')})
+    # calls made by wasmMemoryAtomicWait itself or by the futex.c helpers it calls (the load may sit in a helper)
+    seen_f, todo, loads = set(), ['wasmMemoryAtomicWait'], set()
+    while todo:
+        g = todo.pop()
+        if g in seen_f or g not in tu.functions or not (astdb.file_of(tu.functions[g]) or '').endswith('futex.c'):
+            continue
+        seen_f.add(g)
+        for c in walk(astdb.fn_body(tu.functions[g])):
+            if c.get('kind') == 'CallExpr':
+                cn = astdb.callee_name(c) or ''
+                if re.fullmatch(r'i(32|64)_(atomic_)?load', cn):
+                    loads.add(cn)
+                else:
+                    todo.append(cn)
+    loads = sorted(loads)
     chk.expect(any(l.startswith('i32') for l in loads) and any(l.startswith('i64') for l in loads) and not bad, 'R19.4', 'wait-reads-through-helpers',
                'wasmMemoryAtomicWait loads the cell through %r (direct reinterpretations of memory->data: %d); expected the runtime\'s i32/i64 load '
                'helpers, which apply the 32/64-bit reversal on big-endian hosts' % (loads, len(bad)), 'futex.c/wasmMemoryAtomicWait:cell-load')
